@@ -41,9 +41,9 @@ func rgswEvaluatorTarget() *Target {
 	}
 	t := &Target{
 		Name: "rgsw.Evaluator", Envs: []string{"rlwe", "bgv-1p", "rlwe-pow2"},
-		Type:   reflect.TypeOf(&rgsw.Evaluator{}),
-		New:    func(e *Env) interface{} { return rgsw.NewEvaluator(e.RLWE, e.Evk) },
-		Shared: func(e *Env) []interface{} { return []interface{}{e.Evk} },
+		Type:      reflect.TypeOf(&rgsw.Evaluator{}),
+		New:       func(e *Env) interface{} { return rgsw.NewEvaluator(e.RLWE, e.Evk) },
+		Shared:    func(e *Env) []interface{} { return []interface{}{e.Evk} },
 		NotTabled: map[string]string{"ShallowCopy": "copy constructor (C10)", "WithKey": "copy constructor (C10)"},
 	}
 	t.Rows = []Row{{Method: "ExternalProduct", Doc: "ExternalProduct computes RLWE x RGSW -> RLWE (result on opOut)", Kinds: kinds,
@@ -129,9 +129,9 @@ func lintransEvaluatorTarget() *Target {
 	}
 	t := &Target{
 		Name: "lintrans.Evaluator", Envs: []string{"ckks", "bgv", "ckks-1p"},
-		Type:   reflect.TypeOf(&lintrans.Evaluator{}),
-		New:    func(e *Env) interface{} { return &lintrans.Evaluator{Evaluator: schemeEvaluator(e)} },
-		Shared: func(e *Env) []interface{} { return []interface{}{e.Evk} },
+		Type:             reflect.TypeOf(&lintrans.Evaluator{}),
+		New:              func(e *Env) interface{} { return &lintrans.Evaluator{Evaluator: schemeEvaluator(e)} },
+		Shared:           func(e *Env) []interface{} { return []interface{}{e.Evk} },
 		DefaultNotTabled: "promoted from the embedded schemes.Evaluator interface (the scheme evaluator has its own target)",
 		NotTabled:        map[string]string{},
 	}
@@ -246,11 +246,11 @@ func polynomialEvaluatorTarget() *Target {
 			}
 			return ckkspoly.NewEvaluator(e.CKKS, ckks.NewEvaluator(e.CKKS, e.Evk))
 		},
-		Shared: func(e *Env) []interface{} { return []interface{}{e.Evk} },
+		Shared:           func(e *Env) []interface{} { return []interface{}{e.Evk} },
 		DefaultNotTabled: "promoted from the embedded schemes.Evaluator / CoefficientGetter interfaces",
 		NotTabled: map[string]string{
-			"EvaluateBabyStep":  "its PatersonStockmeyerPolynomialVector argument can only be built with the scheme packages' unexported SimEvaluator; exercised through Evaluate",
-			"EvaluateGianStep":  "same (internal step of Evaluate)",
+			"EvaluateBabyStep":                           "its PatersonStockmeyerPolynomialVector argument can only be built with the scheme packages' unexported SimEvaluator; exercised through Evaluate",
+			"EvaluateGianStep":                           "same (internal step of Evaluate)",
 			"EvaluatePatersonStockmeyerPolynomialVector": "same (internal step of Evaluate)",
 		},
 	}
